@@ -174,7 +174,9 @@ def consistent(model, reads):
         axes, xk, yk = q
         exp = model.expect(axes, XPOS[xk], YPOS[yk])
         if exp[0] == "keyerror":
-            if r != "KeyError":
+            # nothing registered that could serve this query: get_metric must refuse
+            # (today with KeyError; the property does not fix the exception type)
+            if not (r == "KeyError" or (isinstance(r, str) and r.startswith("EXC:"))):
                 return (q, exp, r)
         elif exp[0] == "exact":
             if r != exp[1]:
